@@ -7,3 +7,20 @@ chk("C14", "exploration",
     "Trusted: the hand-written alias/prefix table in vf/oracle/table.py and the name inventory "
     "read from unyt as data; scale accuracy of table rows themselves is C02's subject.",
     "exhaustive enumeration against an independent name resolver", "DESIGN.md §3 C14")
+chk("C15", "exploration",
+    "Exhaustive over the finite product constants x aliases x {plain,_mks,_cgs} x {default + 7 unit-system "
+    "registries}, all defining relations and all unit/constant name overlaps; every guise is reduced to an SI "
+    "magnitude and compared with the canonical one (1e-12), Gaussian guises via a hand-written CGS/SI pairing, "
+    "values against hand-written CODATA/IAU references within fixed tolerance classes.",
+    "Trusted: reference values/relations in vf/oracle/table.py (written from memory of CODATA 2018 / IAU 2015; "
+    "class tolerances 1e-7..1e-3); alias inventory read from unyt as data plus a golden alias->constant list.",
+    "exhaustive enumeration; cross-guise differential + algebraic relations", "DESIGN.md §3 C15")
+chk("C02", "exploration",
+    "Every documented name exhaustively against an independently written definition table; x.to(u2) over "
+    "same-dimension pairs of all canonical prefixed names (sampled quick, all ~10^5 thorough); thousands of "
+    "Hypothesis-generated compound expressions against an exact (40-digit) evaluator, including conversion to a "
+    "constructed commensurable partner and custom-registry units. Generated search cannot prove absence for "
+    "compounds; the name part is complete.",
+    "Trusted: vf/oracle/table.py definitions and tolerance classes; compounds judged against products of the "
+    "library's own atomic scales; magnitudes beyond 1e+-280 excluded.",
+    "exhaustive enumeration + Hypothesis-generated expressions vs independent exact evaluator", "DESIGN.md §3 C02")
